@@ -635,8 +635,60 @@ def pred_tables(d, f, v, obj, node, rt, fine):
     return bad
 
 
-def pred_metallic(f, v, obj, node, fine):
+def relisted(obj, pn, how):
+    """the same property model with the (coefficient, exponent) pairs of its polynomial(s) listed in another order
+    (a sum does not care) or, for how == "sparse", with only the highest and the constant term kept"""
+    import copy
+    m = copy.deepcopy(obj)
+
+    def redo(d):
+        a_, n_ = d["a"].split(), d["n"].split()
+        pairs = list(zip(a_, n_))
+        if how == "reverse":
+            pairs = pairs[::-1]
+        elif how == "rotate":
+            pairs = pairs[1:] + pairs[:1]
+        else:
+            pairs = [pairs[0], pairs[-1]] if len(pairs) > 2 else pairs[::-1]
+        d["a"], d["n"] = " ".join(p_[0] for p_ in pairs), " ".join(p_[1] for p_ in pairs)
+        return [(float(x), float(y)) for x, y in pairs]
+    pd = m.data[pn]
+    if "C" in pd:
+        return m, redo(pd)
+    return m, {k: redo(c) for k, c in pd.items()}
+
+
+def pred_listing(obj, node):
+    """rupture and fatigue polynomials are sums of a_i * x^n_i over the listed pairs: re-listing the pairs changes
+    nothing, and a model with other exponents (here: the highest and the constant term only) evaluates that sum"""
     bad = []
+    S = np.logspace(math.log10(S_LO), math.log10(S_HI), 7)
+    for p in node:
+        pn = p.tag
+        if p.find("C") is not None:
+            C = float(p.find("C").text)
+            for how in ("reverse", "rotate", "sparse"):
+                m, pairs = relisted(obj, pn, how)
+                for T in (T_LO, 0.5 * (T_LO + T_HI), T_HI):
+                    got = m.time_to_rupture(pn, np.full(S.shape, T), S.copy())
+                    L = np.log10(S)
+                    with np.errstate(over="ignore"):
+                        want = 10.0 ** (sum(b_ * L ** k_ for b_, k_ in pairs) / T - C)
+                    ok = np.isclose(got, want, rtol=1e-9, atol=0.0) | (~np.isfinite(want) & ~np.isfinite(got))
+                    if not np.all(ok):
+                        j = int(np.argmin(ok))
+                        bad.append(("rupture_listing", {"pname": pn, "how": how, "T": float(T), "s": float(S[j])},
+                                    "time_to_rupture(%s) with the terms listed as n = '%s': %r at T=%r, stress=%r; the sum over the listed "
+                                    "(a, n) pairs gives %r" % (pn, m.data[pn]["n"], float(got[j]), float(T), float(S[j]), float(want[j]))))
+                        break
+                else:
+                    continue
+                break
+    return bad
+
+
+def pred_metallic(f, v, obj, node, fine):
+    bad = pred_listing(obj, node)
     nS, nT, nE = 301 * fine, 26 * fine, 240 * fine
     S = np.logspace(math.log10(S_LO), math.log10(S_HI), nS)
     Ts = np.linspace(T_LO, T_HI, nT)
